@@ -24,7 +24,11 @@ const (
 )
 
 // configuredMaxima are the MaxUDPRespSize values; one plain-DNS server each.
-var configuredMaxima = []int{512, 1024, 1232, 4096, 65535}
+//
+// 0 is the zero value a direct user of the package gets; the statement's
+// formula makes its bound 512 like for any maximum below 512.  (It is last so
+// that the first bench, which also runs the other servers, stays at 512.)
+var configuredMaxima = []int{512, 1024, 1232, 4096, 65535, 0}
 
 // advertised are the EDNS UDP sizes of the requests; -1 means no OPT.
 var advertised = []int{-1, 0, 511, 512, 513, 1232, 4096, 65535}
@@ -159,6 +163,9 @@ func (f reqForm) opt() (o *tbench.OPTSpec) {
 	return o
 }
 
+// phaseSilent marks the cells whose handler finishes without writing.
+const phaseSilent = "silent-handler"
+
 // cell is one point of the grid.
 type cell struct {
 	path     *pathDef
@@ -193,6 +200,7 @@ type proto struct {
 	form     reqForm
 	t        int
 	ownOPT   int
+	noWrite  string
 }
 
 var generalSizes = []int{0, 100, 500, 511, 512, 513, 1231, 1232, 1233, 4095, 4096, 4097, 16384, 65000}
@@ -234,6 +242,23 @@ func boundaryProtos(paths []*pathDef) (out []proto) {
 	}
 
 	for _, p := range paths {
+		// A handler that finishes without writing: whatever the server then
+		// generates itself is a response like any other.
+		for _, nw := range []string{"nil", "error"} {
+			sets := []string{"none", "do", "nsid5", "cookie", "pad", "ka", "all"}
+			for i, name := range sets {
+				f := withAdv(optSet(name), []int{1232, 512, 4096, 65535}[i%4])
+				if p.family == famDoQ && f.KA {
+					// A protocol error over DoQ, never reaches the handler.
+					f = withAdv(optSet("pad16"), 1232)
+				}
+				out = append(out, proto{path: p, boundary: "silent-handler", form: f, t: 300, noWrite: nw})
+			}
+			out = append(out,
+				proto{path: p, boundary: "silent-handler", form: withTTL(withAdv(optSet("none"), 1232), ttlVariants[0]), t: 300, noWrite: nw},
+				proto{path: p, boundary: "silent-handler", form: withAdv(optSet("none"), -1), t: 300, noWrite: nw})
+		}
+
 		// The TTL field of the request's OPT, on every path, against every
 		// kind of handler OPT.
 		for own := 0; own <= 2; own++ {
@@ -383,6 +408,9 @@ func buildCells(r *vkit.Run, protos []proto) (cells []*cell, err error) {
 		c := &cell{
 			idx: i, path: pr.path, form: pr.form, boundary: pr.boundary, id: uint16(i*7 + 11),
 			sh: shape{Cell: i, T: pr.t, OwnOPT: pr.ownOPT, Mix: pick(rng, mixes), Kind: pick(rng, kinds), Propagate: rng.IntN(4) == 0},
+		}
+		if pr.noWrite != "" {
+			c.sh.NoWrite, c.sh.Propagate, c.phase = pr.noWrite, false, phaseSilent
 		}
 
 		if c.form.hasOPT() && c.form.TTLVar == "" {
